@@ -106,6 +106,13 @@ func altFormats(r *vh.Rng, in grpprog.Inst, valid [][]byte, n int) []input {
 				add("alt/uncompressed-subgroup", raw)
 				add("alt/uncompressed-subgroup-flags", withFlags(raw, allFlags[1:]...)...)
 				add("alt/uncompressed-subgroup-neg", cat(beN(x, 48), beN(new(big.Int).Sub(pBLS, y), 48)))
+				for k := int64(1); k <= 4; k++ {
+					kp := new(big.Int).Mul(pBLS, big.NewInt(k))
+					add("congruent/uncompressed-y+kp", cat(beN(x, 48), beN(new(big.Int).Add(y, kp), 48)))
+					if xs := new(big.Int).Add(x, kp); xs.BitLen() <= 384 {
+						add("congruent/uncompressed-x+kp", cat(beN(xs, 48), beN(y, 48)))
+					}
+				}
 				add("alt/x-only-no-flags", beN(x, 48))
 			}
 		}
@@ -138,6 +145,12 @@ func altFormats(r *vh.Rng, in grpprog.Inst, valid [][]byte, n int) []input {
 				add("alt/uncompressed-subgroup", raw)
 				add("alt/uncompressed-subgroup-flags", withFlags(raw, allFlags[1:]...)...)
 				add("alt/uncompressed-subgroup-swapped", cat(beN(x.a, 48), beN(x.b, 48), beN(y.a, 48), beN(y.b, 48)))
+				for k := int64(1); k <= 3; k++ {
+					kp := new(big.Int).Mul(pBLS, big.NewInt(k))
+					add("congruent/uncompressed-y+kp", cat(beN(x.b, 48), beN(x.a, 48), beN(new(big.Int).Add(y.b, kp), 48), beN(y.a, 48)),
+						cat(beN(x.b, 48), beN(x.a, 48), beN(y.b, 48), beN(new(big.Int).Add(y.a, kp), 48)),
+						cat(beN(x.b, 48), beN(new(big.Int).Add(x.a, kp), 48), beN(y.b, 48), beN(y.a, 48)))
+				}
 			}
 		}
 		for i := 0; i < n; i++ {
